@@ -390,6 +390,12 @@ func byteJobs(c *vh.Check) []job {
 				add(bn, &bspec{g: g, mode: "reset", L: l, junk: j}, l, 2)
 			}
 		}
+		// (3') every gadget, both tiers: a SHORT prefix of a long caller buffer is written and summed (the
+		// gadget pads its internal buffer), then Reset and the whole buffer: a gadget that keeps the
+		// caller's slice instead of a copy pads INTO the caller's message
+		for _, j := range []int{1, r - 1} {
+			add(bn, &bspec{g: g, mode: "reset", L: 2*r + 3, junk: j}, 2*r+3, 2)
+		}
 		// (4) FixedLengthSum: (declared maximum L = bytes written, actual l <= L)
 		if g.fixed {
 			two := 2 * r
